@@ -252,10 +252,7 @@ impl CheckpointManager {
             .filter_map(Result::ok)
             .filter(|entry| {
                 entry.file_name().to_str().is_some_and(|name| {
-                    name.starts_with(&prefix)
-                        && Path::new(name)
-                            .extension()
-                            .is_some_and(|ext| ext.eq_ignore_ascii_case("bin"))
+                    checkpoint_file_timestamp(name, &prefix).is_some()
                 })
             })
             .collect();
@@ -325,10 +322,7 @@ impl CheckpointManager {
             .filter_map(Result::ok)
             .filter(|entry| {
                 entry.file_name().to_str().is_some_and(|name| {
-                    name.starts_with(&prefix)
-                        && Path::new(name)
-                            .extension()
-                            .is_some_and(|ext| ext.eq_ignore_ascii_case("bin"))
+                    checkpoint_file_timestamp(name, &prefix).is_some()
                 })
             })
             .collect();
@@ -371,10 +365,7 @@ impl CheckpointManager {
             .filter_map(Result::ok)
             .filter(|entry| {
                 entry.file_name().to_str().is_some_and(|name| {
-                    name.starts_with(&prefix)
-                        && Path::new(name)
-                            .extension()
-                            .is_some_and(|ext| ext.eq_ignore_ascii_case("bin"))
+                    checkpoint_file_timestamp(name, &prefix).is_some()
                 })
             })
             .collect();
@@ -388,6 +379,17 @@ impl CheckpointManager {
 }
 
 /// Compute SHA-256 checksum of data.
+/// Timestamp encoded in the name of a checkpoint file belonging to the pipeline with the given
+/// `checkpoint_<id>_` prefix; `None` for every other file (including `checkpoint_<id>_<x>_<ts>.bin`,
+/// which belongs to the pipeline `<id>_<x>`).
+#[cfg(feature = "checkpointing")]
+fn checkpoint_file_timestamp(name: &str, prefix: &str) -> Option<u64> {
+    name.strip_prefix(prefix)?
+        .strip_suffix(".bin")?
+        .parse::<u64>()
+        .ok()
+}
+
 /// Upper bound on what decoding a checkpoint file may allocate. A corrupted length prefix
 /// larger than this is rejected with an error instead of being allocated up front.
 #[cfg(feature = "checkpointing")]
